@@ -212,6 +212,11 @@ func (fr *Frame) guardCheck(l *Loc, st *State, reach string, pos token.Pos, stor
 		goal = sOr(w, app("bvuge", vc.readCell(st, rkey, l.Ref), bvConst(1, 8)))
 		kind = "guard-read"
 	}
+	if vc.frame.next0 != "" {
+		// an object allocated during this call is not shared yet (constructors
+		// inlined into the function): no lock is needed to touch it
+		goal = sOr(goal, app("bvuge", l.Ref, vc.frame.next0))
+	}
 	root := fr.oblFn()
 	base := fmt.Sprintf("lock:%s:%s:%s", root, kind, g.name)
 	ord := vc.callOrd[base]
